@@ -98,8 +98,9 @@ theorem zRemRangeByScore_noop (z : ZSet) (min max : F64) (mode : Nat)
 /-! ## sorted-set family -/
 
 /-- the key currently holds an existing but EMPTY sorted set (the record is live and its value has no
-    member). Such records are produced by `ZADD LT|GT` on a missing key and by a panicking
-    `ZUNIONSTORE` (see the findings below); no other command leaves one behind. -/
+    member). NOT KNOWN TO BE REACHABLE through the API any more: the two producers of such records
+    (`ZADD LT|GT` on a missing key, a panicking `ZUNIONSTORE`) were repaired; see the section
+    "is the region reachable?" below. -/
 def holdsEmptyZSet (s : MState) (now : Int) (key : Bytes) : Bool :=
   match asZSet (Store.writeKey s now key none).1 key with
   | some z => DsZSet.zCard z = 0
@@ -140,31 +141,19 @@ theorem frame_zaddXX (key m : Bytes) (sc : F64) : Frame [] s (Api.zaddXX s now k
       · exact h
       · exact (h.setVal hp _ _).finish _ _
 
-/-
-  FULL STATEMENT (false):
-    theorem writers_signal_zaddCmp (f) (s) (hp : s.pebble = true) (now key m sc) (k) :
-      changed s (Api.zaddCmp f s now key m sc).1 k → k ∈ (Api.zaddCmp f s now key m sc).1.signalled
-  Finding region: the key is not live (so `writeKey` creates it as an empty sorted set) AND `f` reports
-  "score not changed" on the empty set — which `zAddLT` / `zAddGT` always do for a member that is not
-  there: ZADD LT|GT on a missing key leaves an empty sorted set behind without `signalModifiedKey`.
--/
-theorem frame_zaddCmp (f : ZSet → Bytes → F64 → ZSet × Bool) (key m : Bytes) (sc : F64)
-    (hreg : live s now key = true ∨ (f DsZSet.empty m sc).2 = true) :
+/-- ZADD LT|GT (any comparison update `f`): never creates a key (`writeKey` with a nil constructor, reply 0
+    when the key is missing); signals exactly when `f` reports a changed score -/
+theorem frame_zaddCmp (f : ZSet → Bytes → F64 → ZSet × Bool) (key m : Bytes) (sc : F64) :
     Frame [] s (Api.zaddCmp f s now key m sc).1 := by
   unfold Api.zaddCmp
-  wk_some s now key (Val.zset DsZSet.empty)
+  wk_none s now key
+  split
+  · exact h
   · split
     · exact h
     · split
       · exact (h.setVal hp _ _).finish _ _
       · exact h
-  · simp only [asZSet_of_valOf hv]
-    have hc : (f DsZSet.empty m sc).2 = true := by
-      rcases hreg with h' | h'
-      · rw [hl] at h'; cases h'
-      · exact h'
-    simp only [hc, if_true]
-    exact (h.setVal hp _ _).finish _ _
 
 theorem frame_zincrby (key m : Bytes) (delta : F64) : Frame [] s (Api.zincrby s now key m delta).1 := by
   unfold Api.zincrby
@@ -184,9 +173,10 @@ theorem frame_zincrby (key m : Bytes) (delta : F64) : Frame [] s (Api.zincrby s 
   FULL STATEMENTS (false), for f ∈ {zrem, zremRangeByRank, zremRangeByScore}:
     theorem writers_signal_zrem (s) (hp : s.pebble = true) (now key members) (k) :
       changed s (Api.zrem s now key members).1 k → k ∈ (Api.zrem s now key members).1.signalled
-  Finding region: the key holds an existing EMPTY sorted set (`holdsEmptyZSet`): nothing is removed
+  Region: the key holds an existing EMPTY sorted set (`holdsEmptyZSet`): nothing is removed
   (r = 0), yet `zCard z' = 0` makes the call unlink the record (`delKey`), and the signal is only sent
-  when r > 0.
+  when r > 0. The region is NOT KNOWN TO BE REACHABLE through the API (see "is the region reachable?"
+  below), so these are `_partial` theorems with a `_region_witness` on a hand-written store, not findings.
 -/
 theorem frame_zrem (key : Bytes) (members : List Bytes) (hreg : holdsEmptyZSet s now key = false) :
     Frame [] s (Api.zrem s now key members).1 := by
@@ -333,71 +323,27 @@ theorem frame_zstore_step {D : List Bytes} {s s1 : MState} (h : Frame D s s1) (d
   · exact h.delSignal dst _ hD
   · exact (h.fresh.modMeta dst _).finish dst _ (by simpa using hD)
 
-/-- ZINTERSTORE: the operands are read first, then the destination is (created and) replaced and signalled -/
-theorem frame_zstore_inter (s : MState) (hp : s.pebble = true) (now : Int) (dst : Bytes) (keys : List Bytes)
-    (weights : List F64) (agg : Bytes) : Frame [] s (Api.zstore false s now dst keys weights agg).1 := by
+/-- ZUNIONSTORE / ZINTERSTORE: the operands are read first (the nested computation, read-only); a panic or
+    an `.unsupported` exit happens BEFORE the destination is looked up or created; only on success is the
+    destination (created and) replaced — or unlinked on an empty result — and signalled -/
+theorem frame_zstore (union : Bool) (s : MState) (hp : s.pebble = true) (now : Int) (dst : Bytes) (keys : List Bytes)
+    (weights : List F64) (agg : Bytes) : Frame [] s (Api.zstore union s now dst keys weights agg).1 := by
   unfold Api.zstore
-  simp only [Bool.false_eq_true, if_false]
-  have h1 := frame_zinterCore s now keys weights agg
-  generalize Api.zinterCore s now keys weights agg = r at h1 ⊢
+  dsimp only
+  have h1 : Frame [] s ((if union = true then Api.zunionCore else Api.zinterCore) s now keys weights agg).1 := by
+    cases union
+    · exact frame_zinterCore s now keys weights agg
+    · exact frame_zunionCore s now keys weights agg
+  generalize (if union = true then Api.zunionCore else Api.zinterCore) s now keys weights agg = r at h1 ⊢
   obtain ⟨s1, o⟩ := r
   rcases o with _ | _ | items
   · exact h1
   · exact h1
   · dsimp only
-    have h2 := h1.seq (frame_writeKey_some s1 now dst (.zset DsZSet.empty))
-    generalize writeKey s1 now dst (some (.zset DsZSet.empty)) = w at h2 ⊢
+    have h2 := h1.commit.seq (frame_writeKey_some (commit s1) now dst (.zset DsZSet.empty))
+    generalize writeKey (commit s1) now dst (some (.zset DsZSet.empty)) = w at h2 ⊢
     obtain ⟨s2, ok⟩ := w
     exact frame_zstore_step h2 dst items _ (by simp)
-
-/-
-  FULL STATEMENT (false for union = true):
-    theorem writers_signal_zstore (union) (s) (hp : s.pebble = true) (now dst keys weights agg) (k) :
-      changed s (Api.zstore union s now dst keys weights agg).1 k →
-      k ∈ (Api.zstore union s now dst keys weights agg).1.signalled
-  Finding region (ZUNIONSTORE only): the destination is not live, so `writeKey` (re-)creates it as an
-  empty sorted set BEFORE the nested computation, AND the call then does not reach its signalling tail:
-  the nested union panics on a wrong-typed operand, or the call self-deadlocks (`.hang`: the destination
-  was still indexed though dead and is also an operand), or the float arithmetic leaves the model's
-  fragment (`.unsupported`: a model limitation, not a defect). Outside: the result is an integer reply.
--/
-theorem frame_zstore_union (s : MState) (hp : s.pebble = true) (now : Int) (dst : Bytes) (keys : List Bytes)
-    (weights : List F64) (agg : Bytes)
-    (hreg : live s now dst = true ∨ ∃ n, (Api.zstore true s now dst keys weights agg).2 = .int n) :
-    Frame [] s (Api.zstore true s now dst keys weights agg).1 := by
-  revert hreg
-  unfold Api.zstore
-  simp only [if_true]
-  wk_some s now dst (Val.zset DsZSet.empty)
-  · intro _
-    split
-    · exact h
-    · have h1 := h.trans0 (frame_zunionCore s1 now keys weights agg)
-      generalize Api.zunionCore s1 now keys weights agg = r at h1 ⊢
-      obtain ⟨s2, o⟩ := r
-      rcases o with _ | _ | items
-      · exact h1
-      · exact h1
-      · exact frame_zstore_step h1 dst items _ (by simp)
-  · split
-    · intro hreg
-      rcases hreg with h' | ⟨n, h'⟩
-      · rw [hl] at h'; cases h'
-      · cases h'
-    · have h1 := h.seq0 (frame_zunionCore s1 now keys weights agg)
-      generalize Api.zunionCore s1 now keys weights agg = r at h1 ⊢
-      obtain ⟨s2, o⟩ := r
-      rcases o with _ | _ | items
-      · intro hreg
-        rcases hreg with h' | ⟨n, h'⟩
-        · rw [hl] at h'; cases h'
-        · cases h'
-      · intro hreg
-        rcases hreg with h' | ⟨n, h'⟩
-        · rw [hl] at h'; cases h'
-        · cases h'
-      · intro _
-        exact frame_zstore_step h1 dst items _ (by simp)
 
 /-! ## the table: sorted-set family -/
 
@@ -418,46 +364,40 @@ theorem writers_signal_zaddXX (s : MState) (hp : s.pebble = true) (now : Int) (k
     changed s (Api.zaddXX s now key m sc).1 k → k ∈ (Api.zaddXX s now key m sc).1.signalled :=
   (frame_zaddXX s hp now key m sc).sound k
 
-/-- ZADD LT|GT (any comparison update `f`) outside the finding region: the key is live, or `f` changes the
-    freshly created empty set -/
-theorem writers_signal_zaddCmp_partial (f : ZSet → Bytes → F64 → ZSet × Bool) (s : MState) (hp : s.pebble = true)
-    (now : Int) (key m : Bytes) (sc : F64)
-    (hreg : live s now key = true ∨ (f DsZSet.empty m sc).2 = true) (k : Bytes) :
+/-- ZADD LT|GT (any comparison update `f`), full strength: no region (the call no longer creates keys) -/
+theorem writers_signal_zaddCmp (f : ZSet → Bytes → F64 → ZSet × Bool) (s : MState) (hp : s.pebble = true)
+    (now : Int) (key m : Bytes) (sc : F64) (k : Bytes) :
     changed s (Api.zaddCmp f s now key m sc).1 k → k ∈ (Api.zaddCmp f s now key m sc).1.signalled :=
-  (frame_zaddCmp s hp now f key m sc hreg).sound k
+  (frame_zaddCmp s hp now f key m sc).sound k
 
-theorem writers_signal_zaddLT_partial (s : MState) (hp : s.pebble = true) (now : Int) (key m : Bytes) (sc : F64)
-    (hreg : live s now key = true) (k : Bytes) :
+theorem writers_signal_zaddLT (s : MState) (hp : s.pebble = true) (now : Int) (key m : Bytes) (sc : F64) (k : Bytes) :
     changed s (Api.zaddLT s now key m sc).1 k → k ∈ (Api.zaddLT s now key m sc).1.signalled :=
-  writers_signal_zaddCmp_partial DsZSet.zAddLT s hp now key m sc (Or.inl hreg) k
+  writers_signal_zaddCmp DsZSet.zAddLT s hp now key m sc k
 
-theorem writers_signal_zaddGT_partial (s : MState) (hp : s.pebble = true) (now : Int) (key m : Bytes) (sc : F64)
-    (hreg : live s now key = true) (k : Bytes) :
+theorem writers_signal_zaddGT (s : MState) (hp : s.pebble = true) (now : Int) (key m : Bytes) (sc : F64) (k : Bytes) :
     changed s (Api.zaddGT s now key m sc).1 k → k ∈ (Api.zaddGT s now key m sc).1.signalled :=
-  writers_signal_zaddCmp_partial DsZSet.zAddGT s hp now key m sc (Or.inl hreg) k
+  writers_signal_zaddCmp DsZSet.zAddGT s hp now key m sc k
 
-/-- the region of `writers_signal_zaddLT_partial` cannot be enlarged: on a non-live key `zAddLT`/`zAddGT`
-    never report a change -/
-theorem zAddLT_empty (m : Bytes) (sc : F64) : (DsZSet.zAddLT DsZSet.empty m sc).2 = false := rfl
-theorem zAddGT_empty (m : Bytes) (sc : F64) : (DsZSet.zAddGT DsZSet.empty m sc).2 = false := rfl
-
-/-- witness: `ZADD k LT 0 m` on a missing key (empty store): an empty sorted set now exists under `k`,
-    nothing is signalled -/
-theorem writers_signal_zaddLT_finding :
+/-- the former witness input (`ZADD k LT 0 m` on a missing key) now leaves the store logically untouched -/
+theorem zaddLT_missing_unchanged :
     let s : MState := { pebble := true }
-    let s' := (Api.zaddLT s 0 [107] [109] 0).1
-    changed s s' [107] ∧ [107] ∉ s'.signalled := by decide
+    let r := Api.zaddLT s 0 [107] [109] 0
+    r.2 = .int 0 ∧ ¬ changed s r.1 [107] := by
+  dsimp only
+  exact ⟨rfl, by decide⟩
 
-theorem writers_signal_zaddGT_finding :
+theorem zaddGT_missing_unchanged :
     let s : MState := { pebble := true }
-    let s' := (Api.zaddGT s 0 [107] [109] 0).1
-    changed s s' [107] ∧ [107] ∉ s'.signalled := by decide
+    let r := Api.zaddGT s 0 [107] [109] 0
+    r.2 = .int 0 ∧ ¬ changed s r.1 [107] := by
+  dsimp only
+  exact ⟨rfl, by decide⟩
 
 theorem writers_signal_zincrby (s : MState) (hp : s.pebble = true) (now : Int) (key m : Bytes) (delta : F64) (k : Bytes) :
     changed s (Api.zincrby s now key m delta).1 k → k ∈ (Api.zincrby s now key m delta).1.signalled :=
   (frame_zincrby s hp now key m delta).sound k
 
-/-- ZREM outside the finding region: the key does not hold an existing empty sorted set -/
+/-- ZREM outside the region: the key does not hold an existing empty sorted set -/
 theorem writers_signal_zrem_partial (s : MState) (hp : s.pebble = true) (now : Int) (key : Bytes) (members : List Bytes)
     (hreg : holdsEmptyZSet s now key = false) (k : Bytes) :
     changed s (Api.zrem s now key members).1 k → k ∈ (Api.zrem s now key members).1.signalled :=
@@ -475,59 +415,161 @@ theorem writers_signal_zremRangeByScore_partial (s : MState) (hp : s.pebble = tr
     k ∈ (Api.zremRangeByScore s now key min max mode).1.signalled :=
   (frame_zremRangeByScore s hp now key min max mode hreg).sound k
 
-/-- the store reached from the empty store by `ZADD k LT 0 m`: `k` holds an empty sorted set -/
-def emptyZSetStore : MState := (Api.zaddLT { pebble := true } 0 [107] [109] 0).1
+/-! ### is the region `holdsEmptyZSet` reachable?
+
+  NOT KNOWN TO BE. The two API paths that used to leave an existing empty sorted set behind are gone:
+  `ZADD LT|GT` no longer creates the key (`zaddLT_missing_unchanged`), and Z*STORE creates the destination only
+  after the nested computation succeeded and then either fills it with a non-empty result or unlinks it.
+  Every remaining writer of a sorted-set value writes a NON-EMPTY one (lemmas below): `zadd` / `zaddNX`
+  / `zincrby` always end with the member present; `zaddXX` / `zaddLT` / `zaddGT` only act on an existing
+  set and never shrink it; Z*STORE writes the fold of `zAdd` over a non-empty item list; ZREM & co unlink
+  the record as soon as the set is empty; the codec rebuilds a stored set with `zAdd`. The exits between
+  `writeKey … (some empty)` and the write-back (`.panic` on a wrong type, `.unsupported` in `zincrby`) need an
+  EXISTING record (of another type / with the member already present), so they do not follow a creation
+  (`frame_zaddWith`, `frame_zincrby` above use exactly this).
+  No invariant over whole API runs is proved here; the statement "no reachable store satisfies
+  `holdsEmptyZSet`" is left open, which is why the three `_partial` theorems keep their hypothesis. The
+  hypothesis cannot simply be dropped: on the hand-written (possibly unreachable) store below the three
+  calls do change the key without signalling (`…_region_witness`). -/
+
+theorem dict_ne_nil_of_get {z : ZSet} {m : Bytes} {x : F64} (h : AList.get? z.dict m = some x) : z.dict ≠ [] := by
+  intro e; rw [e] at h; cases h
+
+theorem set_ne_nil {α : Type} (d : AList α) (m : Bytes) (x : α) : AList.set d m x ≠ [] := by
+  cases d with
+  | nil => simp [AList.set]
+  | cons a l =>
+    obtain ⟨k, v⟩ := a
+    simp only [AList.set]
+    (repeat' split) <;> simp
+
+/-- `zAdd` always leaves the member present: the result is never empty -/
+theorem zAdd_nonempty (z : ZSet) (m : Bytes) (sc : F64) : (DsZSet.zAdd z m sc).1.dict ≠ [] := by
+  unfold DsZSet.zAdd
+  split
+  · next old h =>
+    split
+    · exact dict_ne_nil_of_get h
+    · exact set_ne_nil _ _ _
+  · exact set_ne_nil _ _ _
+
+theorem contains_ne_nil {z : ZSet} {m : Bytes} (h : AList.contains z.dict m = true) : z.dict ≠ [] := by
+  intro e; rw [e] at h; cases h
+
+theorem zAddNX_nonempty (z : ZSet) (m : Bytes) (sc : F64) : (DsZSet.zAddNX z m sc).1.dict ≠ [] := by
+  unfold DsZSet.zAddNX
+  split
+  · exact zAdd_nonempty z m sc
+  · next h => exact contains_ne_nil (by simpa using h)
+
+theorem zAddXX_nonempty (z : ZSet) (m : Bytes) (sc : F64) (hz : z.dict ≠ []) : (DsZSet.zAddXX z m sc).1.dict ≠ [] := by
+  unfold DsZSet.zAddXX
+  split
+  · exact zAdd_nonempty z m sc
+  · exact hz
+
+theorem zAddLT_nonempty (z : ZSet) (m : Bytes) (sc : F64) (hz : z.dict ≠ []) : (DsZSet.zAddLT z m sc).1.dict ≠ [] := by
+  unfold DsZSet.zAddLT
+  split
+  · split
+    · exact zAdd_nonempty z m sc
+    · exact hz
+  · exact hz
+
+theorem zAddGT_nonempty (z : ZSet) (m : Bytes) (sc : F64) (hz : z.dict ≠ []) : (DsZSet.zAddGT z m sc).1.dict ≠ [] := by
+  unfold DsZSet.zAddGT
+  split
+  · split
+    · exact zAdd_nonempty z m sc
+    · exact hz
+  · exact hz
+
+theorem zIncrByWith_nonempty (z : ZSet) (m : Bytes) (x : F64) : (DsZSet.zIncrByWith z m x).dict ≠ [] :=
+  zAdd_nonempty z m x
+
+/-- the value Z*STORE writes for a non-empty result is a non-empty sorted set -/
+theorem zstore_fold_nonempty (items : List Item) (z : ZSet) (h : items ≠ [] ∨ z.dict ≠ []) :
+    (items.foldl (fun (z : ZSet) (it : Item) => (DsZSet.zAdd z it.2 it.1).1) z).dict ≠ [] := by
+  induction items generalizing z with
+  | nil =>
+    rcases h with h | h
+    · exact absurd rfl h
+    · exact h
+  | cons it rest ih => exact ih _ (Or.inr (zAdd_nonempty z it.2 it.1))
+
+/-- a hand-written store in which `k` holds an existing empty sorted set — POSSIBLY UNREACHABLE STATE (no
+    sequence of API calls producing it from the empty store is known, see above) -/
+def emptyZSetStore : MState :=
+  { pebble := true, index := [([107], { exp := 0, value := some (.zset DsZSet.empty), state := 1 })] }
 
 theorem emptyZSetStore_spec : emptyZSetStore.pebble = true ∧ emptyZSetStore.signalled = [] ∧
     holdsEmptyZSet emptyZSetStore 0 [107] = true := by decide
 
-/-- witnesses: on that store ZREM / ZREMRANGEBYRANK / ZREMRANGEBYSCORE remove nothing, unlink the
-    record, and signal nothing -/
-theorem writers_signal_zrem_finding :
+/-- the hypothesis of the three `_partial` theorems is necessary (on a possibly unreachable state): on
+    `emptyZSetStore` ZREM / ZREMRANGEBYRANK / ZREMRANGEBYSCORE remove nothing, unlink the record, and signal
+    nothing. These are NOT findings against the implementation unless the state is shown reachable. -/
+theorem writers_signal_zrem_region_witness :
     let s' := (Api.zrem emptyZSetStore 0 [107] [[109]]).1
     changed emptyZSetStore s' [107] ∧ [107] ∉ s'.signalled := by decide
 
-theorem writers_signal_zremRangeByRank_finding :
+theorem writers_signal_zremRangeByRank_region_witness :
     let s' := (Api.zremRangeByRank emptyZSetStore 0 [107] 0 (-1)).1
     changed emptyZSetStore s' [107] ∧ [107] ∉ s'.signalled := by decide
 
-theorem writers_signal_zremRangeByScore_finding :
+theorem writers_signal_zremRangeByScore_region_witness :
     let s' := (Api.zremRangeByScore emptyZSetStore 0 [107] 0 0 0).1
     changed emptyZSetStore s' [107] ∧ [107] ∉ s'.signalled := by decide
+
+/-- Z*STORE, both flavours, full strength -/
+theorem writers_signal_zstore (union : Bool) (s : MState) (hp : s.pebble = true) (now : Int) (dst : Bytes)
+    (keys : List Bytes) (weights : List F64) (agg : Bytes) (k : Bytes) :
+    changed s (Api.zstore union s now dst keys weights agg).1 k →
+    k ∈ (Api.zstore union s now dst keys weights agg).1.signalled :=
+  (frame_zstore union s hp now dst keys weights agg).sound k
 
 theorem writers_signal_zinterstore (s : MState) (hp : s.pebble = true) (now : Int) (dst : Bytes) (keys : List Bytes)
     (weights : List F64) (agg : Bytes) (k : Bytes) :
     changed s (Api.zstore false s now dst keys weights agg).1 k →
     k ∈ (Api.zstore false s now dst keys weights agg).1.signalled :=
-  (frame_zstore_inter s hp now dst keys weights agg).sound k
+  writers_signal_zstore false s hp now dst keys weights agg k
 
-/-- ZUNIONSTORE outside the finding region: the destination is live, or the call reaches its integer reply -/
-theorem writers_signal_zunionstore_partial (s : MState) (hp : s.pebble = true) (now : Int) (dst : Bytes)
-    (keys : List Bytes) (weights : List F64) (agg : Bytes)
-    (hreg : live s now dst = true ∨ ∃ n, (Api.zstore true s now dst keys weights agg).2 = .int n) (k : Bytes) :
+theorem writers_signal_zunionstore (s : MState) (hp : s.pebble = true) (now : Int) (dst : Bytes) (keys : List Bytes)
+    (weights : List F64) (agg : Bytes) (k : Bytes) :
     changed s (Api.zstore true s now dst keys weights agg).1 k →
     k ∈ (Api.zstore true s now dst keys weights agg).1.signalled :=
-  (frame_zstore_union s hp now dst keys weights agg hreg).sound k
+  writers_signal_zstore true s hp now dst keys weights agg k
 
-/-- Z*STORE, both flavours, under the region hypothesis of the union flavour -/
-theorem writers_signal_zstore_partial (union : Bool) (s : MState) (hp : s.pebble = true) (now : Int) (dst : Bytes)
-    (keys : List Bytes) (weights : List F64) (agg : Bytes)
-    (hreg : union = true → (live s now dst = true ∨ ∃ n, (Api.zstore true s now dst keys weights agg).2 = .int n))
-    (k : Bytes) :
-    changed s (Api.zstore union s now dst keys weights agg).1 k →
-    k ∈ (Api.zstore union s now dst keys weights agg).1.signalled := by
-  cases union
-  · exact writers_signal_zinterstore s hp now dst keys weights agg k
-  · exact writers_signal_zunionstore_partial s hp now dst keys weights agg (hreg rfl) k
-
-/-- witness: `ZUNIONSTORE d 1 k` where `k` holds a string: the destination `d` is created (an empty sorted
-    set now exists), the nested union panics on the type assertion, nothing is signalled -/
-theorem writers_signal_zstore_finding :
+/-- the former witness input (`ZUNIONSTORE d 1 k` where `k` holds a string) still panics, but now before the
+    destination is created: nothing changes -/
+theorem zstore_panic_unchanged :
     let s : MState := { pebble := true, index := [([107], { exp := 0, value := some (.str [120]), state := 1 })] }
     let r := Api.zstore true s 0 [100] [[107]] [] []
-    r.2 = .panic ∧ changed s r.1 [100] ∧ [100] ∉ r.1.signalled := by
+    r.2 = .panic ∧ ¬ changed s r.1 [100] := by
   dsimp only
   exact ⟨rfl, by decide⟩
+
+/-- a panic or `.unsupported` exit of Z*STORE never follows a creation: the store it returns is the one the
+    (read-only) nested computation left -/
+theorem zstore_exit_before_create (union : Bool) (s : MState) (now : Int) (dst : Bytes) (keys : List Bytes)
+    (weights : List F64) (agg : Bytes)
+    (h : (Api.zstore union s now dst keys weights agg).2 = .panic ∨
+         (Api.zstore union s now dst keys weights agg).2 = .unsupported) :
+    (Api.zstore union s now dst keys weights agg).1 =
+      ((if union = true then Api.zunionCore else Api.zinterCore) s now keys weights agg).1 := by
+  revert h
+  unfold Api.zstore
+  dsimp only
+  generalize (if union = true then Api.zunionCore else Api.zinterCore) s now keys weights agg = r
+  obtain ⟨s1, o⟩ := r
+  rcases o with _ | _ | items
+  · intro _; rfl
+  · intro _; rfl
+  · dsimp only
+    generalize writeKey (commit s1) now dst (some (.zset DsZSet.empty)) = w
+    obtain ⟨s2, ok⟩ := w
+    dsimp only
+    intro h
+    split at h <;> rcases h with h | h <;> cases h
 
 /-! ## the Pebble hypothesis is necessary
 
@@ -548,22 +590,37 @@ theorem hypothesis_pebble_is_necessary :
 /-- a store with one live string key -/
 def oneKeyStore : MState := { pebble := true, index := [([107], { exp := 0, value := some (.str [49]), state := 1 })] }
 
+/-- the store reached from the empty store by `ZADD k 0 m`: `k` holds a one-member sorted set -/
+def oneZSetStore : MState := (Api.zadd { pebble := true } 0 [107] [109] 0).1
+
 example : oneKeyStore.pebble = true ∧ live oneKeyStore 0 [107] = true := by decide
 example : live ({ pebble := true } : MState) 0 [107] = false := by decide
 -- addInt: fresh key, DECRBY 5
 example : inInt64 (if true then -(5 : Int) else 5) = true := by decide
 -- setRange: fresh key, offset 0
 example : (DsStr.setRange none 0 [120]).isSome = true := by decide
--- zrem & co: a missing key, and a key holding a string, are not empty sorted sets
+-- zrem & co: a missing key, a key holding a string, and a key holding a NON-EMPTY sorted set (reached through the
+-- API) are outside the region
 example : holdsEmptyZSet ({ pebble := true } : MState) 0 [107] = false := by decide
 example : holdsEmptyZSet oneKeyStore 0 [107] = false := by decide
--- zunionstore: no operands on the empty store: integer reply 0
+example : oneZSetStore.pebble = true ∧ holdsEmptyZSet oneZSetStore 0 [107] = false := by decide
+-- … and there ZREM does remove, unlink and signal
+example : let s' := (Api.zrem oneZSetStore 0 [107] [[109]]).1
+    changed oneZSetStore s' [107] ∧ [107] ∈ s'.signalled := by decide
+-- zaddLT / zaddGT (no hypothesis left): an existing member with a higher score is lowered and signalled
+example : let s' := (Api.zaddLT (Api.zadd { pebble := true } 0 [107] [109] 0x3ff0000000000000).1 0 [107] [109] 0).1
+    [107] ∈ s'.signalled := by decide
+-- zstore (no hypothesis left): no operands on the empty store: integer reply 0
 example : ∃ n, (Api.zstore true ({ pebble := true } : MState) 0 [100] [] [] []).2 = .int n := ⟨_, rfl⟩
 -- ReadOnly is inhabited by the three set operations (readOnly_sdiff / readOnly_sinter / readOnly_sunion)
 
-/- UNPROVED: nothing from the requested list is missing. Commands whose full statement is false are proved
-   as `_partial` outside an explicit region and come with a `_finding` witness:
-   addInt, setRange (C09Writers.lean); zaddCmp/zaddLT/zaddGT, zrem, zremRangeByRank, zremRangeByScore,
-   zstore with union = true (this file). -/
+/- UNPROVED: nothing from the requested list is missing.
+   Full strength (no region): zaddWith/zadd/zaddNX, zaddXX, zaddCmp/zaddLT/zaddGT, zincrby, zstore (union and inter).
+   `_partial` + `_finding` (the full statement is false, witness reachable): addInt, setRange (C09Writers.lean).
+   `_partial` + `_region_witness` (the full statement is false on a hand-written store that is NOT known to be
+   reachable; no `_finding` is claimed): zrem, zremRangeByRank, zremRangeByScore, region `holdsEmptyZSet`.
+   OPEN: an invariant "no reachable Pebble store has a live empty sorted set" (only the data-structure lemmas
+   `zAdd_nonempty` … `zstore_fold_nonempty` are proved); with it the three `_partial` hypotheses would be
+   discharged on reachable stores. -/
 
 end NodisVerif.Proofs.C09Writers
